@@ -373,6 +373,134 @@ theorem search_within_limits {α} (mentions : α → Bool) (files : List α)
   rw [List.take_of_length_le h2, List.take_of_length_le]
   exact Nat.le_trans (List.length_filter_le _ _) h
 
+/-! ## `Project._search_func`: which files step 2 scans (completeness of the identifier search)
+
+`srcFileBranch` is the `else:` branch (the event is a file) of the step-1 loop **as the translator
+transcribed it from `jedi/api/project.py`**, statement order included.  The theorems below are
+stated over it: moving `file_ios.append(file_io)` behind the file-name test, or into one of its
+branches, changes the transcription and these proofs no longer check. -/
+
+/-- **every file the walk yields is appended to `file_ios`** — whether it is named like the search
+word or not — and the module hit is reached exactly for the files named like the word; the pass
+never reaches `yield from` without `m` -/
+theorem search_scans_every_file : ∀ named, fileStep srcFileBranch named = some (true, named) := by
+  intro named
+  cases named <;> decide
+
+/-- the names `Path(file_io.path).name` is compared with are `name + '.py'` and `name + '.pyi'`,
+the stub folder is `name + '-stubs'` (the oracle's notion of "a module or package so named") -/
+theorem module_name_suffixes :
+    srcModuleSuffixes = [".py".toList, ".pyi".toList] ∧ srcStubSuffix = "-stubs".toList := by
+  decide
+
+/-- step 1 with the source's file branch: the module hits are those of the specification
+`moduleHits`, and the list handed to `search_in_file_ios` is **the list of all files the walk
+yields, in walk order** -/
+theorem step2_files_are_the_walk_files (lower : Str → Str) (tbl : List PathInfo) (wantedType name : Str)
+    (complete : Bool) (evs : List Ev) :
+    step1 (fileStep srcFileBranch) srcModuleSuffixes srcStubSuffix lower tbl wantedType name complete evs =
+      some (moduleHits srcModuleSuffixes srcStubSuffix lower tbl wantedType name complete evs,
+            (evs.filter (·.isFile)).map (·.path)) :=
+  step1_eq _ _ _ _ _ _ _ _ search_scans_every_file evs
+
+/-- with the source's file branch `Project._search_func` is total and equals its specification:
+module hits of the events named like the word, then the identifiers of **all** yielded files
+(within the limits), then the modules of the project root on `sys.path`, without duplicates -/
+theorem project_search_src (lower : Str → Str) (tbl : List PathInfo) (sysNames : List Nm) (parseLimit openLimit : Nat)
+    (wantedType name : Str) (complete : Bool) (evs : List Ev) :
+    projectSearch srcFileBranch srcModuleSuffixes srcStubSuffix lower tbl sysNames parseLimit openLimit
+        wantedType name complete evs =
+      some (skipDuplicates (moduleHits srcModuleSuffixes srcStubSuffix lower tbl wantedType name complete evs ++
+        identifierHits lower tbl wantedType name complete parseLimit openLimit ((evs.filter (·.isFile)).map (·.path)) ++
+        searchFilter lower sysNames wantedType name complete false)) := by
+  simp only [projectSearch, step2_files_are_the_walk_files]
+
+/-- **search_complete**: within the parse limit, every definition (`n`, with tree name `t`, listed by
+`get_module_names` for the requested `all_scopes`) of every file the walk yields — *named like the
+search word or not* — that is spelled like the word (exactly / as a prefix) and has the requested
+type is among the results of `Project.search` / `complete_search`: the search does not fail and
+reports a result with that tree name (`_try_to_skip_duplicates` keeps one result per tree name).
+`mentions` is the regex pre-filter of `_check_fs` (a file that defines the word mentions it).
+Together with `walk_complete` / `unnamed_file_is_yielded` (which files the walk yields) this is the
+completeness clause of the property on the model. -/
+theorem search_complete (lower : Str → Str) (tbl : List PathInfo) (sysNames : List Nm)
+    (wantedType name : Str) (complete : Bool) (evs : List Ev)
+    (ev : Ev) (hev : ev ∈ evs) (hfile : ev.isFile = true)
+    (i : PathInfo) (hi : lookup tbl ev.path = some i) (hm : i.mentions = true)
+    (n : Nm) (hn : n ∈ i.names) (t : Nat) (ht : n.treeId = some t) (hty : n.type ≠ "module".toList)
+    (hspell : nameMatches lower name complete false n = true) (htype : typeOk wantedType n = true)
+    (hlim : (evs.filter (·.isFile)).length ≤ JediModel.Gen.C19.parsedFileLimit) :
+    ∃ r, projectSearch srcFileBranch srcModuleSuffixes srcStubSuffix lower tbl sysNames
+          JediModel.Gen.C19.parsedFileLimit JediModel.Gen.C19.openedFileLimit wantedType name complete evs = some r ∧
+      ∃ m ∈ r, m.treeId = some t := by
+  refine ⟨_, project_search_src _ _ _ _ _ _ _ _ _, ?_⟩
+  apply skipLoop_keeps t [] [] _ n _ hty ht (by simp)
+  refine List.mem_append.mpr (.inl (List.mem_append.mpr (.inr ?_)))
+  unfold identifierHits
+  have hlen : (List.filterMap (lookup tbl) ((evs.filter (·.isFile)).map (·.path))).length
+      ≤ JediModel.Gen.C19.parsedFileLimit :=
+    Nat.le_trans (List.length_filterMap_le _ _) (by simpa using hlim)
+  simp only [search_within_limits _ _ hlen]
+  refine List.mem_flatMap.mpr ⟨i, List.mem_filter.mpr ⟨List.mem_filterMap.mpr ⟨ev.path, ?_, hi⟩, hm⟩, ?_⟩
+  · exact List.mem_map.mpr ⟨ev, List.mem_filter.mpr ⟨hev, hfile⟩, rfl⟩
+  · exact List.mem_filter.mpr ⟨hn, by simp [hspell, htype]⟩
+
+/-- a file `/r/foo.py` that defines `foo`, searched for `foo`: hypotheses of `search_complete` are
+satisfiable, and the result holds the module hit *and* the definition -/
+example :
+    projectSearch srcFileBranch srcModuleSuffixes srcStubSuffix id
+      [⟨"/r/foo.py".toList, ⟨"foo".toList, "module".toList, none, some "/r/foo.py".toList, 1⟩, true,
+        [⟨"foo".toList, "statement".toList, some 1, some "/r/foo.py".toList, 1⟩]⟩] [] 30 2000 [] "foo".toList false
+      [⟨true, "/r/foo.py".toList, "foo.py".toList, []⟩] =
+    some [⟨"foo".toList, "module".toList, none, some "/r/foo.py".toList, 1⟩,
+          ⟨"foo".toList, "statement".toList, some 1, some "/r/foo.py".toList, 1⟩] := by
+  decide
+
+/-- **every module or package so named**: an event (file named `word.py` / `word.pyi`, folder named
+`word` / `word-stubs`) whose module name passes the final filter is reported as a module: some
+result has its `module_path` -/
+theorem search_modules_complete (lower : Str → Str) (tbl : List PathInfo) (sysNames : List Nm)
+    (parseLimit openLimit : Nat) (wantedType name : Str) (complete : Bool) (evs : List Ev)
+    (ev : Ev) (hev : ev ∈ evs)
+    (hnamed : (if ev.isFile then fileNamed srcModuleSuffixes name ev else folderNamed srcStubSuffix name ev) = true)
+    (i : PathInfo) (hi : lookup tbl ev.path = some i)
+    (p : Str) (hmod : i.modName.type = "module".toList) (hp : i.modName.modPath = some p)
+    (hid : i.modName.treeId = none)
+    (hspell : nameMatches lower name complete false i.modName = true) (htype : typeOk wantedType i.modName = true) :
+    ∃ r, projectSearch srcFileBranch srcModuleSuffixes srcStubSuffix lower tbl sysNames parseLimit openLimit
+          wantedType name complete evs = some r ∧
+      ∃ m ∈ r, m.type = "module".toList ∧ m.modPath = some p := by
+  refine ⟨_, project_search_src _ _ _ _ _ _ _ _ _, ?_⟩
+  have hk : modKey i.modName = some p := by simp [modKey, hmod, hp]
+  obtain ⟨m, hm1, hm2⟩ := skipLoop_keeps_module p [] [] _ i.modName
+    (List.mem_append.mpr (.inl (List.mem_append.mpr (.inl (moduleHit_mem_moduleHits _ _ lower tbl wantedType name
+      complete evs ev hev hnamed i.modName (by simp [moduleHit, hi, searchFilter, hspell, htype])))))) hk hid (by simp)
+  refine ⟨m, hm1, ?_⟩
+  unfold modKey at hm2
+  split at hm2
+  · rename_i h; exact ⟨h, hm2⟩
+  · cases hm2
+
+/-- **witness: with `file_ios.append(file_io)` in the `else:` branch of the file-name test** (the file
+branch `if named: m = load(..) else: file_ios.append(file_io); continue`) a file named like the
+search word is reported as a module only and is never scanned: its own definition of the word is
+lost — the statement of `search_scans_every_file` fails for that branch, and on `/r/foo.py`
+defining `foo` the search for `foo` returns the module hit alone -/
+theorem append_in_else_branch_loses_definitions :
+    fileStep [("if_named", ["load"], ["append", "continue"])] true = some (false, true) ∧
+    projectSearch [("if_named", ["load"], ["append", "continue"])] srcModuleSuffixes srcStubSuffix id
+      [⟨"/r/foo.py".toList, ⟨"foo".toList, "module".toList, none, some "/r/foo.py".toList, 1⟩, true,
+        [⟨"foo".toList, "statement".toList, some 1, some "/r/foo.py".toList, 1⟩]⟩] [] 30 2000 [] "foo".toList false
+      [⟨true, "/r/foo.py".toList, "foo.py".toList, []⟩] =
+    some [⟨"foo".toList, "module".toList, none, some "/r/foo.py".toList, 1⟩] := by
+  decide
+
+/-- a file branch that falls through to `yield from search_in_module(.., names=[m.name])` without
+assigning `m` in that pass is an error outcome of the model, not a silent success -/
+theorem fall_through_without_module_is_an_error :
+    fileStep [("append", [], []), ("if_named", ["load"], [])] false = none := by
+  decide
+
 /-! ## search string and final filter -/
 
 /-- `split_search_string`: the dotted part never contains a space, re-joining the name list with
